@@ -26,14 +26,14 @@ PROBES = {
             "cutoff_restored_checked", "exogenous_data", "stale_batch", "failed_call_injected",
             "batching_invariance_checked", "labels_after_stale_checked",
             "same_integers_other_kind", "frozen_model_same_time_points_checked",
-            "components_reused_elsewhere"],
+            "components_reused_elsewhere", "remembered_absolute_horizon_reused"],
     "C03": ["gapped_fh", "absolute_fh", "fh_at_fit", "fh_reused_across_cutoffs",
             "predict_after_update", "shifted_twin_checked", "gapped_vs_contiguous_checked",
             "exogenous_data", "stale_batch", "failed_call_injected", "unsorted_fh", "fh_as_index",
             "labels_after_stale_checked",
             "int_index_nonzero_origin", "negative_origin", "composite_depth2",
             "tuned_forecaster", "same_integers_other_kind", "components_reused_elsewhere",
-            "frozen_model_same_time_points_checked"],
+            "frozen_model_same_time_points_checked", "remembered_absolute_horizon_reused"],
 }
 FAULT_KINDS = {
     "C10": ["overlap_batch", "empty_batch", "pickle_roundtrip", "schedule_ooo",
@@ -117,7 +117,9 @@ def generate(prop, rng, tier):
     max_h = 8
     n0 = C.min_train_len(spec, max(fit_steps) if fh_fit_needed else max_h) + rng.randint(0, 12 if not big else 40)
     index_kind = rng.choice(["range", "range", "range", "int", "int"])
-    origin = rng.choice([0, 0, 1, 5, 17, 100, 1000, -3, -50])
+    origin = rng.choice([0, 0, 1, 5, 17, 100, 1000, -3, -50, "end_at_zero"])
+    if origin == "end_at_zero":
+        origin = -(n0 - 1)      # the training series ends exactly at time 0
     if index_kind == "period":
         origin = rng.choice([0, 3, 14])
     ops = [{"op": "fit", "n": n0,
@@ -161,6 +163,11 @@ def generate(prop, rng, tier):
                       "fh": cvfh, "start_with_window": rng.random() < 0.7}
             ops.append({"op": "upd", "take": take, "cv": cv, "up": rng.random() < 0.6})
             total += take
+            if rng.random() < 0.25:
+                # ... and then the same observations are handed over again with update
+                ops.append({"op": "update", "take": 1, "overlap": take, "change": False,
+                            "up": rng.random() < 0.65})
+                total += 1
         else:
             ops.append({"op": "pickle"})
         if rng.random() < 0.12:
@@ -706,6 +713,17 @@ class Engine:
         fhs = op.get("fh")
         if fhs is not None and fhs.get("same_ints"):
             fhs = self._same_integers(fhs)
+        if fhs is None and self.a.fh_steps is not None and self.a.fh_abs and self.a.fh_cut is not None \
+                and not self.after_upd and not self.stale_state and self.kind != "period":
+            # a remembered ABSOLUTE horizon: the same time points are answered after the cutoff
+            # has moved, as long as they all still lie ahead of it
+            a = self.a
+            labels = [int(a.label(a.fh_cut)) + int(s_) for s_ in a.fh_steps]
+            now = int(a.label(a.cut))
+            if min(labels) > now and a.fh_cut != a.cut:
+                self.res.probe("remembered_absolute_horizon_reused")
+                self.predict_and_check(i, None, steps_override=[l_ - now for l_ in labels])
+            return
         if fhs is None and (self.a.fh_steps is None or self.a.fh_abs):
             # no horizon known anywhere (a C20 matter), or a remembered absolute
             # horizon that may by now lie in-sample (outside the property)
@@ -756,8 +774,8 @@ class Engine:
                 self.dead = True
                 return
 
-    def predict_and_check(self, i, fhs, label="predict"):
-        steps = list(fhs["steps"]) if fhs else list(self.a.fh_steps)
+    def predict_and_check(self, i, fhs, label="predict", steps_override=None):
+        steps = list(fhs["steps"]) if fhs else list(steps_override or self.a.fh_steps)
 
         def do(actor):
             fh = _mk_fh(fhs, actor.label(actor.cut), actor.kind) if fhs else None
@@ -876,6 +894,8 @@ class Engine:
         b0 = a.batch(a.pos, a.pos + take)
         if cvs is None and a.fh_abs:
             return  # the default splitter is built from a relative horizon only
+        if cvs is None and self.spec["kind"] == "gscv":
+            return  # (the best forecaster's own default window may not fit the batch)
         try:
             cv_probe = self._make_cv(cvs, a)
             splits = [(np.asarray(tr), np.asarray(te)) for tr, te in cv_probe.split(b0)]
@@ -1070,7 +1090,8 @@ class Engine:
                        "tuned forecaster after fit+update(s): predict(%s) gives %s, a fresh forecaster "
                        "with the same best parameters fitted on all data seen gives %s" % (
                            steps, C.fmt(p), C.fmt(q)), op="predict", tuned=True)
-        elif self.refit_clean and self.updates_since_fit > 0 and C.refits_on_update(self.spec):
+        elif self.refit_clean and self.updates_since_fit > 0 and (
+                C.refits_on_update(self.spec) or _pointwise_pipeline(self.spec)):
             # fresh forecaster fitted once on everything seen
             with peers.paused():
                 try:
@@ -1320,6 +1341,19 @@ class _FaultyCV:
             def get_fh(self):
                 return self._inner.get_fh()
         return FaultyCV()
+
+
+def _pointwise_pipeline(spec):
+    """A pipeline whose transformers are parameter-free and pointwise (log) around a forecaster
+    that refits on update: update(update_params=True) then equals a fresh fit on all data."""
+    if spec["kind"] != "ttf":
+        return False
+
+    def t_ok(t):
+        if t["kind"] == "optional":
+            return t_ok(t["transformer"])
+        return t["kind"] == "log"
+    return all(t_ok(t) for t in spec["transformers"]) and C.refits_on_update(spec["forecaster"])
 
 
 def _batching_invariant(spec):
